@@ -25,8 +25,10 @@ def op_strategy(kind, none_p=True, only=None):
     a = attrs()
     b = st.booleans()
     sd = side(kind, none_p)
-    edge = st.tuples(sd, sd).map(list)  # [tail, head] - may overlap, may both be empty
-    ct = st.sampled_from(["list", "tuple", "set", "frozenset"])
+    # [tail, head] - may overlap, may both be empty; one in six is a loop (tail == head)
+    edge = st.one_of(st.tuples(sd, sd).map(list), st.tuples(sd, sd).map(list), st.tuples(sd, sd).map(list), st.tuples(sd, sd).map(list), st.tuples(sd, sd).map(list),
+                     sd.filter(lambda s: None not in s).map(lambda s: [list(s), list(s)]))
+    ct = st.sampled_from(["list", "tuple", "set", "frozenset", "iter"])
     outer = st.sampled_from(["list", "tuple", "gen"])
     pairct = st.sampled_from(["list", "tuple"])
     direction = st.sampled_from(["in", "out", "in", "out", "in", "out", "sideways"])
@@ -66,7 +68,7 @@ def op_strategy(kind, none_p=True, only=None):
         (2, "set_edge_attributes", setattr_modes(e).map(lambda t: ["set_edge_attributes"] + list(t))),
         (5, "add_node_to_edge", st.tuples(st.just("add_node_to_edge"), e_or_none, n_or_none, direction).map(list)),
         (3, "remove_edge", st.tuples(st.just("remove_edge"), e).map(list)),
-        (2, "remove_edges_from", st.tuples(st.just("remove_edges_from"), st.lists(e, max_size=3)).map(list)),
+        (4, "remove_edges_from", st.tuples(st.just("remove_edges_from"), nets.eid_removal_list).map(list)),
         (5, "remove_node_from_edge", st.tuples(st.just("remove_node_from_edge"), e, nm, direction, b).map(list)),
         (1, "set_net_attr", st.tuples(st.just("set_net_attr"), st.sampled_from(["name", "tag"]), nets.attr_value).map(list)),
         (0.5, "clear", st.tuples(st.just("clear"), b).map(list)),
